@@ -1,0 +1,18 @@
+//go:build verif
+
+package regulator
+
+// WaitingQueueSnapshot returns a copy of the regulator's waiting queue.
+// Read-only verification hook (build tag verif): lets a check distinguish a
+// dropped player from one legitimately waiting.
+func WaitingQueueSnapshot(r Regulator) []string {
+	rg, ok := r.(*regulator)
+	if !ok {
+		return nil
+	}
+	rg.mu.RLock()
+	defer rg.mu.RUnlock()
+	q := make([]string, len(rg.waitingQueue))
+	copy(q, rg.waitingQueue)
+	return q
+}
